@@ -28,19 +28,14 @@ PROPS = {
         tables=["parse"],
         determined=True,
         projection=lambda case, reply: reply.split(" ")[0] if reply.startswith("ok ") else ("E" if reply.startswith("E ") else reply),
-        technique="Lean 4 theorems about a model of the parser (stream-error/ill-formed-UTF-8 rejection, entry-point equalities, whole input consumed) + bounded-exhaustive differential execution of the verdict through every entry point against the model and an independent RFC 8259 recogniser",
-        level_text=("PARTIAL proof. Proved in Lean for all inputs: a character stream that ends in a decoding error is never accepted; byte input that is not well-formed UTF-8 "
-                    "(std from_utf8 table) is rejected and well-formed byte input gets exactly the verdict of the decoded text; acceptance consumes the whole text. "
-                    "The equivalence 'accepts iff RFC 8259 grammar' (C01_full) is stated but not yet proved in Lean; it is covered by differential execution: "
-                    "the verdict of the real parser is compared with the proved-terminating Lean model AND with an independent grammar-derived recogniser on every string of length <= 5 "
-                    "over a 14-character alphabet, every token sequence of length <= 4, a transition cover of the number/literal automata in 7 contexts, every single-byte edit and "
-                    "truncation of the JSONTestSuite corpus, all 2-byte sequences and structured 3/4-byte UTF-8 sequences, and grammar-directed documents with damage; all entry points must agree."),
+        technique="Lean 4 theorem: the model of the strict parser accepts a text iff it is derivable in RFC 8259's grammar (stated as an inductive relation transcribed from the ABNF) — soundness and completeness by induction, via a refinement explicit-stack machine = recursive descent; plus stream-error/ill-formed-UTF-8 rejection and entry-point equalities; model tied to the code by bounded-exhaustive differential execution through every entry point, with an independent recogniser as second oracle",
+        level_text=('FULL proof on the model. C01_accepts_iff_rfc8259: for every text, the string entry point of the modelled strict parser accepts iff the text is a JSON-text of RFC 8259 (GDoc: `ws value ws`, every production of the ABNF transcribed one for one as an inductive relation in Spec/Grammar.lean; \\u escapes must denote well-formed UTF-16). Both directions, all texts, no bound: soundness and completeness are proved through two hub theorems — machine_eq_rd (the explicit-stack loop of Value::parse_in computes the same result as a textbook recursive-descent parser over the same lexers, for every input) and rd_sound / rd_complete (recursive descent = grammar; the number automaton and the string scanner are proved equal to the `number` and `string` productions state by state). C01_slice_accepts_iff: the byte entry point accepts exactly the well-formed UTF-8 encodings of JSON-texts; a stream ending in a decoding error is never accepted; all entry points agree. The model is tied to /repo by differential execution of the verdict through every entry point (bounded-exhaustive alphabets, automaton transition covers, corpus edits, character-class aliasing, UTF-8 byte sequences, grammar-directed documents) and an independent recogniser runs as a second oracle.'),
         level_note=("Trusted: Lean kernel; hand-written model of src/parse/*.rs validated by correspondence on ~1.6M inputs per run; the harness's reference recogniser; "
                     "std core::str::from_utf8 modelled by utf8Dec (validated on all 2-byte and structured longer sequences)."),
         rule=("request = one input text/byte string + option record; verdict projection (accept / reject). Streams: bounded-exhaustive character alphabet and token alphabet, "
               "number-automaton transition cover, literal deviations, string-element sequences, \\uXXXX sweep, surrogate pairs, raw scalars, corpus edits/truncations, grammar-directed + damaged documents, "
               "UTF-8 byte sequences, failing streams. Non-trivial = accepted input; distinct = distinct request lines"),
-        strength="partial: rejection of ill-formed streams, entry-point agreement (model level) proved; grammar equivalence tested exhaustively within bounds, not yet proved",
+        strength='full on the model: accepts iff RFC 8259 (soundness + completeness, all texts); UTF-8 layer and entry-point agreement proved; tie to the code by correspondence',
         trusted_base=COMMON_TRUST + ["std core::str::from_utf8 = utf8Dec (modelled, validated by the byte streams)", "harness reference recogniser (harness/src/refjson.rs), written from RFC 8259"],
         assumptions=["the character-iterator entry points are given iterators that deliver the text's characters (any iterator is modelled as a finite list plus a may-fail flag)"],
     ),
@@ -111,14 +106,11 @@ PROPS = {
     "C04": dict(
         tables=["print", "parse"],
         determined=True,
-        technique="Lean 4 theorems: printer = documented layout (theorem P) and every layout is the value's token sequence interleaved with JSON whitespace only; round trip through the real parser checked on every generated case (direct oracle) and through the model",
-        level_text=("PARTIAL proof. Proved in Lean for every value, option record and indentation: printing never panics and its output is exactly the token sequence of the value (the sequence the compact serializer concatenates) "
-                    "with spaces/tabs/line feeds inserted between tokens only (C04_only_whitespace_partial, C04_compact_is_tokens) — i.e. options only ever change insignificant whitespace. "
-                    "The re-parse clause parse(print(v)) = v (C04_full) needs the completeness half of the parser-vs-grammar theorem, which is not yet proved; it is checked on the real code for every generated value x option record "
-                    "(direct oracle: strict parse_str of the real output equals the original value incl. order, duplicates, strings, number spellings) and the printed text is compared byte-for-byte with the model."),
-        level_note="Trusted: Lean kernel; models of printer and parser validated by correspondence; the round trip itself is tested, not proved.",
+        technique="Lean 4 theorem: for every value (with JSON numbers), print-option record, indentation and parse-option record, the modelled printer's output is parsed back to the same value by the modelled parser — via (i) printer = layout specification, (ii) every layout is a whitespace-interleaving of the value's tokens, (iii) every such interleaving is derivable in the RFC 8259 grammar with that value, (iv) completeness of the parser; models tied to the code by differential execution (printed bytes; strict re-parse of the real output)",
+        level_text=("FULL proof on the model. C04_round_trip: for every value whose numbers are JSON numbers (NumsOk — the guard NumberBuf::new enforces), every print option record, every starting indentation and every parse option record, printWith returns a text (never panics) and parseStr maps it back to exactly that value (entry order, duplicate keys, every character of every string, every number spelling). C04_printed_is_json: the text is a JSON-text of RFC 8259 denoting the value. Proof chain, all unbounded: printer_eq_spec (two-phase printer = layout specification), spec_interleave (any layout = the value's token sequence with JSON whitespace between tokens only; C04_only_whitespace_partial), interleave_gdoc (any such interleaving is in the grammar with content v; string literals via escapeChar_gelem: every escape the printer writes is a `char` production denoting that character), parse_complete. Tie to /repo: printed bytes compared with the model for every generated value x option record, and the real output re-parsed by the real strict parser must equal the original."),
+        level_note=('Trusted: Lean kernel; hand-written models of printer and parser validated by correspondence on every run; assumption NumsOk (numbers are JSON numbers).'),
         rule="as C13; every case additionally re-parsed by the real strict parser",
-        strength="partial: whitespace-only + no-panic proved; round trip tested",
+        strength='full on the model: parse(print(v)) = v for all values/options; tie to the code by correspondence',
         trusted_base=COMMON_TRUST,
         assumptions=["values carry valid JSON numbers (enforced by NumberBuf::new; new_unchecked is unsafe)"],
     ),
@@ -209,15 +201,11 @@ PROPS = {
         tables=["parse"],
         determined=True,
         projection=lambda case, reply: " ".join(reply.split(" ")[:2]) if reply.startswith("ok ") else "E",
-        technique="Lean 4 theorems on the lexical layer (numbers verbatim, literals, key lookup on parser-built objects from the C06 invariant) + exhaustive differential execution of the decoded value (all 65,536 \\uXXXX, surrogate pairs, raw scalars, backslash+ASCII) against the model and an independent decoder",
-        level_text=("PARTIAL proof. Proved in Lean, for every context and option record: the number value returned is exactly the text consumed (byte-for-byte, any length); null/true/false come from exactly those spellings; "
-                    "on an object built by pushing entries in source order (what the parser does) get/get_entries return exactly the entries carrying the key in source order and index_of the first (from the C06 invariant). "
-                    "The full statement (value = abstract content of the document, incl. string decoding per RFC 8259 §7 and container structure: C02_full) awaits the parser-vs-grammar theorem; it is covered by comparing the decoded VALUE of the real parser "
-                    "with the Lean model and with an independent grammar-derived decoder on: all 65,536 \\uXXXX escapes, every 17th of the 1,048,576 surrogate pairs (thorough: all), every 13th scalar value as a raw character (thorough: all 1,112,064), all backslash+ASCII pairs, "
-                    "value and key position, the bounded-exhaustive document streams of C01 and grammar-directed documents with duplicate keys and exotic number spellings."),
-        level_note="Trusted: Lean kernel; model validated by correspondence; harness reference decoder (refjson.rs).",
+        technique='Lean 4 theorems: the value returned by the modelled parser is the content the RFC 8259 grammar relation assigns to the text (soundness), every valid document is parsed to its content under every option record (completeness + conservativity), and that content is unique; key lookups from the C06 object invariant; model tied to the code by differential execution of the decoded value and an independent reference decoder',
+        level_text=('FULL proof on the model. GDoc text v (Spec/Grammar.lean) assigns to each JSON-text its abstract content: items and members in source order with duplicates kept, strings as the characters denoted by their `char` productions (two-character escapes, \\uXXXX, a high+low surrogate escape pair as one scalar, raw characters as themselves), numbers as their spelling, literals as themselves. C02_value_is_content: whatever the strict parser returns for a text is that content; C02_content_is_parsed: every JSON-text is parsed to its content under every option record; C02_content_unique: the content is unique. All for every text, no bound (hub theorems machine_eq_rd, rd_sound, rd_complete, run_mono). C02_lookup: on an object built by pushing entries in source order get/get_entries return exactly the entries carrying the key in source order and index_of the first (C06 invariant). Tie to /repo: the decoded value of the real parser is compared with the model and with an independent decoder on all 65,536 \\uXXXX escapes, surrogate pairs (every 17th; thorough: all 1,048,576), raw scalars (every 13th; thorough: all), all backslash+ASCII pairs, bounded-exhaustive document streams, grammar-directed documents with duplicate keys; every keyed lookup on every object of every parsed document is compared with the reference entries.'),
+        level_note=('Trusted: Lean kernel; model validated by correspondence; the grammar relation of Spec/Grammar.lean as the reading of RFC 8259 (\\u escapes as UTF-16; unpaired surrogates denote nothing); harness reference decoder (second oracle).'),
         rule="request = text + options; value projection (`ok <value>`). Non-trivial = accepted; distinct request lines",
-        strength="partial: number/literal/lookup clauses proved; string decoding and structure tested exhaustively within bounds",
+        strength='full on the model: parsed value = grammar content for every text, uniqueness, lookups; tie to the code by correspondence',
         trusted_base=COMMON_TRUST + ["harness reference decoder"],
         assumptions=[],
     ),
